@@ -39,7 +39,18 @@ type tracer struct {
 	done           chan struct{}
 	subscribers    []chan ITrace
 	senders        sync.WaitGroup
+	// registration guards senders: a sender registering while the tracer already
+	// waits for the registered ones (a start racing with a cancellation) would
+	// add to the wait group concurrently with its Wait
+	registration sync.Mutex
+	closing      bool
 }
+
+// lateSender is the handle of a sender that registered after the tracer started
+// to wait for its senders: it is not waited for
+type lateSender struct{}
+
+func (lateSender) Done() {}
 
 func NewTracer(ctx context.Context) ITracer {
 	t := tracer{
@@ -95,6 +106,9 @@ func (t *tracer) run(ctx context.Context) {
 			termination.Do(func() {
 				go func() {
 					// Wait until all senders have terminated
+					t.registration.Lock()
+					t.closing = true
+					t.registration.Unlock()
 					t.senders.Wait()
 					// Send an internal termination message
 					t.terminate <- struct{}{}
@@ -158,6 +172,11 @@ func (t *tracer) Send(trace ITrace) {
 }
 
 func (t *tracer) RegisterSender() ISenderHandle {
+	t.registration.Lock()
+	defer t.registration.Unlock()
+	if t.closing {
+		return lateSender{}
+	}
 	t.senders.Add(1)
 	return &t.senders
 }
